@@ -59,6 +59,11 @@
 /// Common traits and impl.
 pub mod common;
 
+/// Verification hooks.
+#[cfg(feature = "verif")]
+#[allow(clippy::all, clippy::pedantic, missing_docs)]
+pub mod verif;
+
 /// Configuration for `EventLoops`.
 #[allow(missing_docs)]
 pub mod config;
